@@ -25,7 +25,7 @@ META = {
 }
 
 ORACLE = '''
-from math import sin, cos, sqrt, atan, atan2, radians, degrees
+from math import sin, cos, sqrt, atan, atan2, radians, degrees, exp
 
 def p2r(r, theta):
     return r * sin(radians(theta)), r * cos(radians(theta))
@@ -60,6 +60,15 @@ def zenith(z, s, hi, ht):
 def fvc_closed(dist, c, d, temp, pressure, e):
     t = temp + 273.15
     return dist * (c - ((d * pressure) / t) + ((11.27 * e) / t)) * (10 ** -6)
+
+def saturation(t, p):
+    return (1.0007 + 3.46 * p * (10 ** -6)) * 6.1121 * exp((17.502 * t) / (240.94 + t))
+
+def vapour_rh(dry, p, rh):
+    return saturation(dry, p) * rh / 100
+
+def vapour_wet(dry, p, wet):
+    return saturation(wet, p) - 0.000662 * p * (dry - wet)
 
 def fvc_co2(dist, c, ng):
     n_ref = 1 + (c / 1.0e6)
@@ -474,6 +483,46 @@ def _same_number(a, b):
         return False
 
 
+def vapour_rules(repo, rep, orc):
+    """partial water-vapour pressure (Rueger eq. 5.27 - 5.29) on BOTH of its paths: from the relative humidity, e = E_w(dry) H / 100, and from
+    a wet-bulb temperature, e = E_w(wet) - 0.000662 p (dry - wet) with E_w(t) = (1.0007 + 3.46e-6 p) 6.1121 exp(17.502 t / (240.94 + t)).
+    And its domain: every logarithm met on the way has an argument that stays positive over 0..100 % humidity (dry air is in the range)."""
+    from ..symval import MATH_CALLS
+    from ..symcheck import _affine_single_symbol
+    f = repo.func('geodepy.survey', 'part_h2o_vap_press')
+    rep.analysed(f)
+    w = where(f, f.node)
+    ps = [p.name for p in f.params]
+    dry, p, rh, wet = Rat.sym('dry'), Rat.sym('p'), Rat.sym('rh'), Rat.sym('wet')
+    base = 'R-FORMULA::geodepy/survey.py::part_h2o_vap_press::'
+    dom = {'dry': (F(-40), F(60)), 'wet': (F(-40), F(60)), 'p': (F(500), F(1100)), 'rh': (F(0), F(100))}
+    for tag, args, ref, txt in (('humidity', {ps[0]: dry, ps[1]: p, ps[2]: rh, ps[3]: NONE}, orc.call('vapour_rh', dry=dry, p=p, rh=rh), 'e = E_w(dry) * H / 100 (eq. 5.27, 5.29)'),
+                                ('wet-bulb', {ps[0]: dry, ps[1]: p, ps[2]: NONE, ps[3]: wet}, orc.call('vapour_wet', dry=dry, p=p, wet=wet), 'e = E_w(wet) - 0.000662 p (dry - wet) (eq. 5.27, 5.28)')):
+        del MATH_CALLS[:]
+        ev = Evaluator(repo)
+        ev.never_none = {'dry', 'p', 'rh', 'wet'}
+        got = ev.call_function(f, args)
+        check_equal(rep, 'R-FORMULA', base + tag, w, got, ref, txt)
+        key = 'R-DOMAIN::geodepy/survey.py::part_h2o_vap_press::logarithm[%s]' % tag
+        bad = None
+        for fn_, short, node, arg, res in MATH_CALLS:
+            if not short.startswith('log') or not isinstance(arg, Rat):
+                continue
+            aff = _affine_single_symbol(arg)
+            if aff is not None and aff[0] in dom:
+                lo, hi = dom[aff[0]]
+                mn = min(aff[1] + aff[2] * lo, aff[1] + aff[2] * hi)
+                if mn <= 0:
+                    bad = bad or (fn_, node, aff[0], lo if aff[1] + aff[2] * lo <= 0 else hi)
+        if bad:
+            fn_, node, sym, at = bad
+            rep.violated('R-DOMAIN', key, where(fn_, node) if fn_ is not None else w, '`%s` takes the logarithm of a quantity that is zero at %s = %s, a value of the range (dry air: 0 %% humidity): '
+                         'math.log raises ValueError where the correction is defined' % (stmt_text(node)[:60], {'rh': 'relative humidity'}.get(sym, sym), at),
+                         expected='no logarithm of the humidity (e = E_w H / 100 is 0 for dry air)', actual=stmt_text(node)[:80])
+        else:
+            rep.holds('R-DOMAIN', key, w, 'no logarithm of a quantity that reaches zero inside the ranges', work=False)
+
+
 def humidity_rules(repo, rep):
     """the vapour pressure is linear in the relative humidity over the whole range 0..100 %: PV = H/100 * saturation pressure(T).  A helper that
     re-reads part of the range in another unit (a fraction below 1) is not: decided as d^2 PV / dH^2 = 0 and no branch on H"""
@@ -519,6 +568,7 @@ def run(repo, rep):
     fvc_rules(repo, rep, orc)
     params_rules(repo, rep)
     humidity_rules(repo, rep)
+    vapour_rules(repo, rep, orc)
     dispersion_rule(repo, rep)
     # every local is assigned on all paths to its uses: a branch chain without its closing case (wet_temp > 0 / wet_temp < 0 and nothing for
     # exactly 0 - a temperature the property names) leaves the variable unbound
